@@ -416,6 +416,80 @@ fn pop_stream(rng: &mut Rng, level: &str, size: usize) -> Vec<DltMessage> {
     v
 }
 
+/// SOME/IP segmented transfer sequences from the boundary alphabet of spec/PluginsSomeIpSeg.tla, between ordinary messages
+fn seg_stream(seq: &[Value]) -> (Vec<DltMessage>, Vec<String>) {
+    let ip9: [u8; 9] = [10, 0, 0, 1, 10, 0, 0, 2, 1];
+    let mut v = vec![proto("ECU1", V_LOG_INFO, "APP", "CTX", verb(&[A::Str("before the transfer")]))];
+    for m in seq {
+        let id = (m["id"].as_u64().unwrap() as u32 + 700).to_le_bytes();
+        let a = m["a"].as_u64().unwrap();
+        let b = m["b"].as_u64().unwrap();
+        let p = match m["k"].as_str().unwrap() {
+            "ST" => verb(&[A::Str("NWST"), A::Raw(&id), A::Raw(&ip9), A::U8(0), A::Raw(&(a as u16).to_le_bytes()), A::Raw(&(b as u16).to_le_bytes())]),
+            "CH" => {
+                let data: Vec<u8> = (0..b).map(|i| (i * 7 + a) as u8).collect();
+                verb(&[A::Str("NWCH"), A::Raw(&id), A::Raw(&(a as u16).to_le_bytes()), A::Raw(&data)])
+            }
+            _ => verb(&[A::Str("NWEN"), A::Raw(&id)]),
+        };
+        v.push(proto("ECU1", V_NW_IPC, "SIP", "TC", p).t("seg"));
+    }
+    v.push(proto("ECU1", V_LOG_INFO, "APP", "CTX", verb(&[A::Str("after the transfer")])));
+    v.push(proto("ECU1", V_NW_IPC, "SIP", "TC", verb(&[A::Raw(&ip9), A::Raw(&someip_hdr(64098, 1000, &[5]))])));
+    finish(v, BASE_US)
+}
+
+/// ids shaped like the anonymiser's own pseudonyms (E001, A001, C001, E999, the cut form E100 ...), ids another id will be
+/// mapped to - arriving before or after it -, ids differing only in case / trailing zero bytes vs. spaces, non-printable ids.
+/// One boot per ECU, so the lifecycle tables of the original and the anonymised stream are comparable.
+fn idshape_stream(rng: &mut Rng, shapes_first: bool) -> Vec<DltMessage> {
+    let ecus_shape: [&[u8; 4]; 6] = [b"E001", b"E002", b"E003", b"E999", b"E100", b"E01\0"];
+    let ecus_plain: [&[u8; 4]; 8] = [b"ECU1", b"ecu1", b"ECU\0", b"ECU ", b"EC\0\0", b"EC  ", b"E\x01\x02C", b"\xff\xfe\0\0"];
+    let apids: [&[u8; 4]; 9] = [b"A001", b"A002", b"A999", b"APP\0", b"app\0", b"APP ", b"AP\0\0", b"A\x07\0\0", b"C001"];
+    let ctids: [&[u8; 4]; 7] = [b"C001", b"C002", b"CTX\0", b"ctx\0", b"CTX ", b"C\0\0\0", b"A001"];
+    let mut ecu_order: Vec<&[u8; 4]> = Vec::new();
+    if shapes_first {
+        ecu_order.extend(ecus_shape.iter());
+        ecu_order.extend(ecus_plain.iter());
+    } else {
+        ecu_order.extend(ecus_plain.iter());
+        ecu_order.extend(ecus_shape.iter());
+    }
+    let mut v = Vec::new();
+    let mut t = 0u32;
+    let mut push = |ecu: &[u8; 4], apid: &[u8; 4], ctid: &[u8; 4], ei: usize, t: &mut u32| {
+        let text = format!("shape {}", *t);
+        let (noar, pl) = verb(&[A::Str(&text)]);
+        v.push(DltMessage {
+            index: *t,
+            reception_time_us: BASE_US + *t as u64 * 20_000 + ei as u64,
+            ecu: DltChar4::from_buf(ecu),
+            timestamp_dms: 10_000 + *t * 200,
+            standard_header: DltStandardHeader { htyp: 0x31, mcnt: (*t & 0xff) as u8, len: 0 },
+            extended_header: Some(DltExtendedHeader { verb_mstp_mtin: V_LOG_INFO, noar, apid: DltChar4::from_buf(apid), ctid: DltChar4::from_buf(ctid) }),
+            payload: pl,
+            payload_text: None,
+            lifecycle: 0,
+        });
+        *t += 1;
+    };
+    // first appearance of the ECUs in the chosen order, apids / ctids in listed or reversed order
+    for (ei, e) in ecu_order.iter().enumerate() {
+        for k in 0..3usize {
+            let (ai, ci) = if shapes_first { (k, k) } else { (apids.len() - 1 - k, ctids.len() - 1 - k) };
+            push(e, apids[ai], ctids[ci], ei, &mut t);
+        }
+    }
+    // then random combinations (consistency: same id -> same pseudonym)
+    for _ in 0..120 {
+        let ei = rng.below(ecu_order.len() as u64) as usize;
+        let a = *rng.pick(&apids);
+        let c = *rng.pick(&ctids);
+        push(ecu_order[ei], a, c, ei, &mut t);
+    }
+    v
+}
+
 fn file_stream(path: &str, n: usize) -> Vec<DltMessage> {
     let f = std::fs::File::open(path).expect("open example file");
     let ext = std::path::Path::new(path).extension().and_then(|s| s.to_str()).unwrap_or("").to_string();
@@ -637,6 +711,8 @@ fn main() {
             "kf" => kf_stream(&mut rng),
             "lc" => (lc_stream(&mut rng), vec![]),
             "ids" => (ids_stream(&mut rng), vec![]),
+            "seg" => seg_stream(e["seq"].as_array().unwrap()),
+            "idshapes" => (idshape_stream(&mut rng, e["shapes_first"].as_bool().unwrap_or(true)), vec![]),
             "pop" => (pop_stream(&mut rng, e["level"].as_str().unwrap(), e["size"].as_u64().unwrap() as usize), vec![]),
             "file" => (file_stream(e["file"].as_str().unwrap(), e["n"].as_u64().unwrap() as usize), vec![]),
             other => panic!("unknown stream {}", other),
@@ -660,7 +736,7 @@ fn main() {
         }
         if let Some(p) = pan {
             t.ev(json!({"ev":"panic","msg":p}));
-        } else if stream == "lc" {
+        } else if stream == "lc" || stream == "idshapes" {
             match (lc_table(msgs), lc_table(outs)) {
                 (Ok(o), Ok(an)) => t.ev(json!({"ev":"lcs","orig":o,"anon":an,"via":"library"})),
                 (Err(_), _) => lc_skipped += 1, // the detector panicked on the original stream: not C19's business
